@@ -2,6 +2,9 @@
   C09 — stream identifiers are allocated and checked per RFC 7540 section 5.1.1.
 -/
 import H2.Proofs.RecvEmits
+import H2.Proofs.Marks
+import H2.Proofs.MarksMono
+import H2.Proofs.History
 
 namespace H2.C09
 open H2 H2.Gen H2.Conn
@@ -20,14 +23,15 @@ theorem C09_ids_init (cfg : Config) : IdsOk (Conn.init cfg) := by
 
 /-- **get_next_available_stream_id**: the smallest id of the endpoint's parity above every id it has used; once that
     would exceed 2^31-1, NoAvailableStreamIDError — and the state is untouched either way -/
-theorem C09_next (c : Conn) (h : IdsOk c) :
+theorem C09_next_of_out (c : Conn)
+    (h : (c.highestOut = 0 ∨ (c.highestOut % 2 = ownParity c ∧ 0 < c.highestOut)) ∧ c.highestOut ≤ HIGHEST_ALLOWED_STREAM_ID) :
     wp getNextAvailableStreamId
       (fun n c' => c' = c ∧ n % 2 = ownParity c ∧ c.highestOut < n ∧ n ≤ HIGHEST_ALLOWED_STREAM_ID ∧ 0 < n ∧
         (∀ m, m % 2 = ownParity c → c.highestOut < m → 0 < m → n ≤ m))
       (fun e c' => c' = c ∧ e.isInstance .NoAvailableStreamIDError = true ∧
         (∀ m, m % 2 = ownParity c → c.highestOut < m → 0 < m → HIGHEST_ALLOWED_STREAM_ID < m)) c := by
   unfold getNextAvailableStreamId
-  obtain ⟨h1, h2, _, _⟩ := h
+  obtain ⟨h1, h2⟩ := h
   unfold ownParity at *
   unfold HIGHEST_ALLOWED_STREAM_ID at *
   wps
@@ -47,6 +51,14 @@ theorem C09_next (c : Conn) (h : IdsOk c) :
           intro m hm1 hm2 hm3; omega
         · refine ⟨trivial, by omega, by omega, by omega, by omega, ?_⟩
           intro m hm1 hm2 hm3; omega)
+
+theorem C09_next (c : Conn) (h : IdsOk c) :
+    wp getNextAvailableStreamId
+      (fun n c' => c' = c ∧ n % 2 = ownParity c ∧ c.highestOut < n ∧ n ≤ HIGHEST_ALLOWED_STREAM_ID ∧ 0 < n ∧
+        (∀ m, m % 2 = ownParity c → c.highestOut < m → 0 < m → n ≤ m))
+      (fun e c' => c' = c ∧ e.isInstance .NoAvailableStreamIDError = true ∧
+        (∀ m, m % 2 = ownParity c → c.highestOut < m → 0 < m → HIGHEST_ALLOWED_STREAM_ID < m)) c :=
+  C09_next_of_out c ⟨h.1, h.2.1⟩
 
 theorem createStream_spec (sid : Int) (ob : Bool) (c : Conn) :
     wp (createStream sid ob)
@@ -172,5 +184,101 @@ theorem C09_priority_opens_nothing (sid : Int) (p : Prio) (c : Conn) :
     · simp only [hd, if_true, raise]; exact ⟨trivial, trivial⟩
     · simp only [hd, Bool.false_eq_true, if_false, pure, M.pure]
       exact ⟨trivial, trivial, by simpa using hd⟩
+
+/-! ### along every history -/
+
+theorem C09_calls_keep_marks (cl : Bool) : CallsKeep (MK cl) where
+  initiate := fun c h => pm_apiInitiate c h
+  upgrade := fun hdr c h => pm_apiUpgrade hdr c h
+  sendHeaders := fun sid hs es pw pd pe c h => pm_apiSendHeaders sid hs es pw pd pe c h
+  pushStream := fun sid p hs c h => pm_apiPushStream sid p hs c h
+  sendData := fun sid d es pad c h => pm_apiSendData sid d es pad c h
+  endStream := fun sid c h => pm_apiEndStream sid c h
+  incrementWindow := fun i sid c h => pm_apiIncrementWindow i sid c h
+  ping := fun d c h => pm_apiPing d c h
+  resetStream := fun sid code c h => pm_apiResetStream sid code c h
+  closeConnection := fun code extra last c h => pm_apiCloseConnection code extra last c h
+  updateSettings := fun items c h => pm_apiUpdateSettings items c h
+  altsvc := fun f o sid c h => pm_apiAltsvc f o sid c h
+  prioritize := fun sid w d e c h => pm_apiPrioritize sid w d e c h
+  ackData := fun size sid c h => pm_apiAckData size sid c h
+  dataToSend := fun n c h => pm_apiDataToSend n c h
+  clearOut := fun c h => pm_apiClearOut c h
+  localWindow := fun sid c h => pm_apiLocalWindow sid c h
+  remoteWindow := fun sid c h => pm_apiRemoteWindow sid c h
+  nextStreamId := fun c h => pm_apiNextStreamId c h
+  openOut := fun c h => pm_apiOpenOut c h
+  openIn := fun c h => pm_apiOpenIn c h
+
+/-- **the high-water marks stay in order, in every reachable state**: the highest id this endpoint has used is 0 or an id
+    of its own parity, at most 2^31-1; the highest id the peer has used is 0 or an id of the peer's parity.  They are
+    written by `_begin_new_stream` after its three checks, by `_refuse_pushed_stream` (an id of the peer's parity above
+    the mark) and by the branch of `send_headers` that takes a refused request back -/
+theorem C09_marks_every_history (cfg : Config) (c : Conn) (h : C29.Reachable cfg c) :
+    c.cfg.client = cfg.client ∧
+    (c.highestOut = 0 ∨ (c.highestOut % 2 = ownParity c ∧ 0 < c.highestOut)) ∧ c.highestOut ≤ HIGHEST_ALLOWED_STREAM_ID ∧
+    (c.highestIn = 0 ∨ (c.highestIn % 2 = 1 - ownParity c ∧ 0 < c.highestIn)) := by
+  have hm : MK cfg.client c := by
+    refine every_history (C09_calls_keep_marks cfg.client) (fun d c h => receiveData_mk d c h) (fun _ _ h => h) cfg ?_ c h
+    cases hc : cfg.client <;> simp [MK, Conn.init, hc]
+  obtain ⟨h0, h1, h2, h3⟩ := hm
+  unfold ownParity parOf HIGHEST_ALLOWED_STREAM_ID at *
+  rw [h0]
+  exact ⟨rfl, h1, h2, h3⟩
+
+/-- **`get_next_available_stream_id` in every reachable state**: the smallest unused id of this endpoint's parity, or
+    NoAvailableStreamIDError once that would pass 2^31-1; the state is untouched either way -/
+theorem C09_next_every_history (cfg : Config) (c : Conn) (h : C29.Reachable cfg c) :
+    wp getNextAvailableStreamId
+      (fun n c' => c' = c ∧ n % 2 = ownParity c ∧ c.highestOut < n ∧ n ≤ HIGHEST_ALLOWED_STREAM_ID ∧ 0 < n ∧
+        (∀ m, m % 2 = ownParity c → c.highestOut < m → 0 < m → n ≤ m))
+      (fun e c' => c' = c ∧ e.isInstance .NoAvailableStreamIDError = true ∧
+        (∀ m, m % 2 = ownParity c → c.highestOut < m → 0 < m → HIGHEST_ALLOWED_STREAM_ID < m)) c := by
+  have := C09_marks_every_history cfg c h
+  exact C09_next_of_out c ⟨this.2.1, this.2.2.1⟩
+
+theorem C09_calls_keep_lower (lo li : Int) : CallsKeep (GE lo li) where
+  initiate := fun c h => pg_apiInitiate c h
+  upgrade := fun hdr c h => pg_apiUpgrade hdr c h
+  sendHeaders := fun sid hs es pw pd pe c h => pg_apiSendHeaders sid hs es pw pd pe c h
+  pushStream := fun sid p hs c h => pg_apiPushStream sid p hs c h
+  sendData := fun sid d es pad c h => pg_apiSendData sid d es pad c h
+  endStream := fun sid c h => pg_apiEndStream sid c h
+  incrementWindow := fun i sid c h => pg_apiIncrementWindow i sid c h
+  ping := fun d c h => pg_apiPing d c h
+  resetStream := fun sid code c h => pg_apiResetStream sid code c h
+  closeConnection := fun code extra last c h => pg_apiCloseConnection code extra last c h
+  updateSettings := fun items c h => pg_apiUpdateSettings items c h
+  altsvc := fun f o sid c h => pg_apiAltsvc f o sid c h
+  prioritize := fun sid w d e c h => pg_apiPrioritize sid w d e c h
+  ackData := fun size sid c h => pg_apiAckData size sid c h
+  dataToSend := fun n c h => pg_apiDataToSend n c h
+  clearOut := fun c h => pg_apiClearOut c h
+  localWindow := fun sid c h => pg_apiLocalWindow sid c h
+  remoteWindow := fun sid c h => pg_apiRemoteWindow sid c h
+  nextStreamId := fun c h => pg_apiNextStreamId c h
+  openOut := fun c h => pg_apiOpenOut c h
+  openIn := fun c h => pg_apiOpenIn c h
+
+/-- **the high-water marks never go down**: whatever is called and whatever arrives — so an id, once used in either
+    direction, is never handed out, accepted or promised again (`C09_begin`: a new stream needs an id above the mark) -/
+theorem C09_marks_never_decrease (c : Conn) (op : Op) :
+    c.highestOut ≤ (step c op).1.highestOut ∧ c.highestIn ≤ (step c op).1.highestIn := by
+  have h0 : GE c.highestOut c.highestIn c := ⟨Int.le_refl _, Int.le_refl _⟩
+  by_cases hr : ∃ d, op = .recv d
+  · obtain ⟨d, rfl⟩ := hr
+    exact recv_keeps (P := GE c.highestOut c.highestIn) (fun d c' h => receiveData_ge d c' h) c d h0
+  · exact call_keeps (C09_calls_keep_lower _ _) c op (fun d hd => hr ⟨d, hd⟩) h0
+
+/-- …along any sequence of operations -/
+theorem C09_marks_monotone (c : Conn) (ops : List Op) :
+    c.highestOut ≤ (run c ops).1.highestOut ∧ c.highestIn ≤ (run c ops).1.highestIn := by
+  induction ops generalizing c with
+  | nil => exact ⟨Int.le_refl _, Int.le_refl _⟩
+  | cons op ops ih =>
+    have h1 := C09_marks_never_decrease c op
+    have h2 := ih (step c op).1
+    simp only [run]
+    exact ⟨Int.le_trans h1.1 h2.1, Int.le_trans h1.2 h2.2⟩
 
 end H2.C09
